@@ -176,11 +176,16 @@ def semantics(prog, max_worlds=20000):
     zq = dict((q, Fraction(0)) for q in g.queries)
     ze = Fraction(0)
     undefined_relevant = False
+    undefined_consistent = False
     for sel, w in g.worlds():
         true, undef = g.wfm(sel)
         rel = [q for q in g.queries] + [a for a, _ in g.evidence]
         if any(a in undef for a in rel):
             undefined_relevant = True
+            # ... in a world in which the evidence holds (with evidence propagation the engine never visits the
+            # worlds the evidence excludes, so only these can be demanded to be rejected there)
+            if all(a not in undef and ((a in true) == v) for a, v in g.evidence):
+                undefined_consistent = True
             continue
         if all((a in true) == v for a, v in g.evidence):
             ze += w
@@ -188,7 +193,7 @@ def semantics(prog, max_worlds=20000):
                 if q in true:
                     zq[q] += w
     out = dict(status="ok", evidence_weight=ze, undefined=undefined_relevant, negcycle=g.has_negative_cycle(),
-               negcycle_mixed=g.negative_cycle_through_positive_cycle(),
+               negcycle_mixed=g.negative_cycle_through_positive_cycle(), undefined_consistent=undefined_consistent,
                queries=list(g.queries))
     if ze > 0:
         out["probs"] = dict((q, zq[q] / ze) for q in g.queries)
